@@ -88,6 +88,7 @@ fn main() {
         "replay-sample" => {
             let lines = read_lines(a.input.as_ref().unwrap());
             let o = checks::sample::SampleOpts {
+                stab_all: opt("stab_all").is_some(),
                 seed: a.seed,
                 base_idx: opt("base_idx").and_then(|s| s.parse().ok()).unwrap_or(0),
                 points_per_line: opt("points").and_then(|s| s.parse().ok()).unwrap_or(12),
